@@ -361,4 +361,38 @@ def Own.remove (o : Own) (id : Nat) : Own × Option Nat :=
 /-- `PushMsg(ids)`: the connections whose `Session.Push` is called, in order (an id nobody holds is skipped: `onSessionMissed`) -/
 def Own.pushTargets (o : Own) (ids : List Nat) : List Nat := ids.filterMap o.lookup
 
+/-! ### the handler's per-session close callbacks (`impls.HandlerComponent.onCloseCBs`, handler.go) and `RemoveSession` as a whole -/
+
+/-- `HandlerComponent.onCloseCBs`: id ↦ the callback registered for it (here: its tag) -/
+structure Hnd where
+  cbs : List (Nat × Nat) := []
+
+/-- `AddOnSessionClose(netId, cb)`: a map store (overwrites what was registered under the id) -/
+def Hnd.register (h : Hnd) (id cb : Nat) : Hnd := { cbs := (id, cb) :: h.cbs.filter (fun p => p.1 != id) }
+
+def Hnd.lookup (h : Hnd) (id : Nat) : Option Nat := (h.cbs.find? (fun p => p.1 == id)).map (·.2)
+
+/-- `HandlerComponent.OnSessionRemove(fs)`: the callback registered under the id runs, THEN its entry is deleted — a callback
+that panics leaves its entry behind (`panics`); nothing registered: nothing happens.  Returns the callback that ran. -/
+def Hnd.onRemove (h : Hnd) (id : Nat) (panics : Bool) : Hnd × Option Nat :=
+  match h.lookup id with
+  | none => (h, none)
+  | some cb => (if panics then h else { cbs := h.cbs.filter (fun q => q.1 != id) }, some cb)
+
+/-- what the callbacks of one `RemoveSession` did -/
+structure RmOut where
+  conn : Option Nat := none      -- the connection whose FrontSession was removed (`none`: "remove a session not exist")
+  handlerCb : Option Nat := none -- the per-session close callback that ran
+  sessionsCb : Bool := false     -- `ClientSessions.onCloseCB` ran
+  deriving DecidableEq, Repr
+
+/-- `ClientSessions.RemoveSession(session)` with `session.GetId() = id` on the owner goroutine: delete the map entry, then
+`handler.OnSessionRemove`, then `onCloseCB` (a panic of the handler's callback unwinds past it; `sche` recovers) -/
+def removeSession (o : Own) (h : Hnd) (id : Nat) (panics : Bool) : Own × Hnd × RmOut :=
+  match o.remove id with
+  | (_, none) => (o, h, {})
+  | (o', some k) =>
+    let r := h.onRemove id panics
+    (o', r.1, { conn := some k, handlerCb := r.2, sessionsCb := !(panics && r.2.isSome) })
+
 end Cell2v.Session
